@@ -18,6 +18,7 @@ from bluebonnet.flow.flowproperties import FlowProperties
 
 _ATOL = 1e-12
 _RTOL = 1e-13
+_RESIDUAL_RTOL = 1e-10  # accepted true residual of a step, relative to its right-hand side
 
 
 @dataclass
@@ -73,8 +74,10 @@ class IdealReservoir:
             pseudopressure[i + 1], info = sparse.linalg.bicgstab(
                 a_matrix, b, atol=_ATOL, rtol=_RTOL
             )
-            if info != 0:
-                # BiCGSTAB stalled or broke down: solve the tridiagonal system directly
+            if info != 0 or not _is_solved(a_matrix, pseudopressure[i + 1], b):
+                # BiCGSTAB stalled, broke down, or reported convergence on its recursively
+                # updated residual while the true residual had drifted away: solve the
+                # tridiagonal system directly
                 pseudopressure[i + 1] = sparse.linalg.spsolve(a_matrix.tocsc(), b)
         # store the run only once it is complete: a call that raised leaves the object as it was
         self.time = time
@@ -228,8 +231,10 @@ class SinglePhaseReservoir(IdealReservoir):
             pseudopressure[i + 1], info = sparse.linalg.bicgstab(
                 a_matrix, b, atol=_ATOL, rtol=_RTOL
             )
-            if info != 0:
-                # BiCGSTAB stalled or broke down: solve the tridiagonal system directly
+            if info != 0 or not _is_solved(a_matrix, pseudopressure[i + 1], b):
+                # BiCGSTAB stalled, broke down, or reported convergence on its recursively
+                # updated residual while the true residual had drifted away: solve the
+                # tridiagonal system directly
                 pseudopressure[i + 1] = sparse.linalg.spsolve(a_matrix.tocsc(), b)
         # store the run only once it is complete: a call that raised (rejected schedule,
         # pressure outside the table) leaves the object as it was
@@ -372,6 +377,11 @@ class MultiPhaseReservoir(SinglePhaseReservoir):
         new saturation: ndarray
         """
         return NotImplementedError
+
+
+def _is_solved(a_matrix: sparse.spmatrix, x: ndarray, b: ndarray) -> bool:
+    """Check the true residual of an iterative solve against what was asked of it."""
+    return np.linalg.norm(a_matrix @ x - b) <= _ATOL + _RESIDUAL_RTOL * np.linalg.norm(b)
 
 
 def _build_matrix(kt_h2: ndarray) -> sparse.spmatrix:
